@@ -67,6 +67,8 @@ fn main() {
         "C15" => props::cpu::run(&ctx, props::cpu::Which::Cycles),
         "C05" => props::c05::run(&ctx),
             "C08" => props::c08::run(&ctx),
+            "C11" => props::c11::run(&ctx),
+            "C13" => props::c13::run(&ctx),
         "C09" => props::c09::run(&ctx),
         _ => {
             eprintln!("unknown property {}", id);
